@@ -554,6 +554,11 @@ var globalAssumptions = []string{
 }
 
 var propAssumptions = map[string][]string{
+	"C19": {
+		"scope (partial): Agent.activate/handleActivationRequest/handleActivation/handleDeactivation/handleActorTopology/addActivated/removeActivated/hasKindLocal/handleGetActive (by id)/memberJoin (topology)/memberLeave (purge)/Receive (dispatch), MemberSet.FilterByKind, Member.HasKind; cluster-wide convergence is the composition of these clauses with delivery and is not machine-checked",
+		"trusted contracts: Agent.bcast (one Bcast entry; its fan-out over the members is not verified), Engine.Spawn, Engine.Poison, Engine.BroadcastEvent, Member.PID; functype SelectMemberFunc pure",
+		"thread confinement of the agent's handlers; PID and Member objects immutable",
+	},
 	"C17": {
 		"scope (partial): Engine.send (remote branch), Remote.Send/Start/Stop, streamRouter.Receive/deliverStream/handleTerminateStream, streamWriter.Shutdown/PID; nothing about TCP, drpc, dialing, retry timing or cross-node ordering is decided",
 		"trusted contracts: newStreamWriter, Engine.Spawn, DRPCRegisterRemote; library calls (net, tls, drpcmux, drpcserver, sync.WaitGroup) have no effect on repository heap and do not panic",
